@@ -423,6 +423,12 @@ class _StickySink:
         """Register a session via the callback; stash the minted token for the response."""
         token = self._open_callback(state, ttl)
         self.mint_token = token
+        # A session opened after this request closed another one is live when
+        # the response goes out.  The close signal would make the client drop
+        # the token it is handed in the same response (it cannot tell
+        # close-then-open from open-then-close), orphaning the new session;
+        # the new token replaces the old one on the client anyway.
+        self.closed = False
         # _open_callback set _current_session_context — capture the new id
         # from there. We could equally have _open_callback return it, but
         # the contextvar is the single source of truth right after open.
